@@ -5,7 +5,8 @@
 //! validator (DESIGN.md), and the encoder (encoding.rs TypeEncoder, graph.rs CompositionGraphEncoder) is closure / builder
 //! code outside the dialect - so this is a bounded stand-in only.
 //! Library: WIT-derived components (records, variants, enums, flags, lists, options, results, tuples, aliases, a
-//! resource with constructor / method / static, own and borrow handles, cross-interface `use`, a versioned package)
+//! resource with constructor / method / static, own and borrow handles, cross-interface `use`, a versioned package,
+//! anonymous compound types first met in every position of a result / option / tuple / list / variant case / record field)
 //! built with wit-component, plus hand-shaped WAT components.  Compositions: every choice of (wired | implicit) for each
 //! argument of a producer -> consumer -> app chain with sharing, through the graph API and through equivalent WAC
 //! documents, x dependencies embedded | imported x validation requested | not.  Every output is validated here with
@@ -39,8 +40,16 @@ interface render {
 interface errs { variant error { a, b(string) } }
 interface ia { use errs.{error}; f: func() -> result<u8, error>; }
 interface ib { record error { code: u32, text: string } g: func() -> result<u8, error>; }
+interface odd {
+  f: func() -> result<u32, list<string>>;
+  record r { a: result<_, option<u64>>, b: option<result<list<u8>>> }
+  g: func(x: r) -> result<list<u8>, tuple<u8, string>>;
+  h: func(x: list<tuple<option<u8>, list<list<u16>>>>) -> result<result<u8, list<u16>>, option<list<string>>>;
+  variant v { a(result<tuple<u8, u8>, list<r>>), b(option<option<string>>) }
+  k: func(x: v) -> tuple<list<v>, option<r>>;
+}
 world producer { export shapes; }
-world multi { import ia; import ib; import shapes; export go: func() -> u8; }
+world multi { import ia; import ib; import shapes; import odd; export go: func() -> u8; }
 world consumer { import shapes; export render; }
 world app { import render; import shapes; export run: func() -> result<_, string>; }
 "#;
